@@ -152,12 +152,22 @@ class PipeOps(FullOps):
                 return a
             return SetV(items=None, elem=join(self.set_elem(a), self.set_elem(b)) if self.set_elem(a) is not None and self.set_elem(b) is not None else (self.set_elem(a) or self.set_elem(b)),
                         atoms=self.atoms_of(a) | self.atoms_of(b))
+        if isinstance(a, SetV) and isinstance(b, SetV) and isinstance(op, (ast.Sub, ast.BitAnd)) and self.atoms_of(a) and self.atoms_of(b) and \
+                (self.strict_atoms or (isinstance(op, ast.Sub) and self.atoms_of(a) <= self.atoms_of(b))):
+            aa, bb = self.atoms_of(a), self.atoms_of(b)
+            res = (aa - bb) if isinstance(op, ast.Sub) else (aa & bb)
+            self.pev("set_op", node, op=type(op).__name__, left=sorted(aa), right=sorted(bb))
+            if not res:
+                return SetV(items=())
+            return SetV(items=None, elem=self.set_elem(a), atoms=frozenset(res))
         if isinstance(a, SetV) and isinstance(b, SetV) and isinstance(op, (ast.Sub, ast.BitAnd)):
             self.pev("set_op", node, op=type(op).__name__, left=sorted(self.atoms_of(a)), right=sorted(self.atoms_of(b)))
             return SetV(items=None, elem=self.set_elem(a), atoms=frozenset([f"({'-' if isinstance(op, ast.Sub) else '&'}:{'+'.join(sorted(self.atoms_of(a)))}:{'+'.join(sorted(self.atoms_of(b)))})"]))
         return super().set_binop(a, op, b, node)
 
     def set_method(self, s, name, args, kwargs, node, env):
+        if name == "difference" and args:
+            return self.set_binop(s, ast.Sub(), self.to_set(args[0], node), node)
         if self.strict_atoms and name in ("issubset", "issuperset", "isdisjoint"):
             o = self.to_set(args[0], node)
             if isinstance(o, SetV):
@@ -218,6 +228,8 @@ class PipeOps(FullOps):
         return super().identity(a, b)
 
     def decide_test(self, test_expr, val, env):
+        if self.strict_atoms and isinstance(val, SetV) and val.items is None and val.atoms:
+            return True  # scenario mode: atoms denote non-empty sets
         m = env.module.name if env is not None else ""
         if m.endswith("tensor_dict") and env.fn is not None and env.fn.name.startswith("_check"):
             self.ev("assumed_consistent", test_expr)
